@@ -687,3 +687,157 @@ func hashString(s string) uint32 {
 	}
 	return h
 }
+
+// ScenarioNames returns the registered scenarios whose name starts with one of the prefixes, sorted.
+func ScenarioNames(prefixes ...string) []string {
+	var out []string
+	for n := range scenarios {
+		for _, p := range prefixes {
+			if strings.HasPrefix(n, p) {
+				out = append(out, n)
+				break
+			}
+		}
+	}
+	sort.Strings(out)
+	return out
+}
+
+// RunSchedMany explores many scenarios, one worker job per scenario (each job runs the complete
+// deviation-bounded DFS of its scenario).
+func RunSchedMany(rep *Report, pool *Pool, names []string, bound int, deadline time.Time) {
+	if len(names) == 0 {
+		return
+	}
+	budget := int(time.Until(deadline).Seconds())
+	if budget < 10 {
+		budget = 10
+	}
+	jobs := make([]any, len(names))
+	for i, n := range names {
+		jobs[i] = SchedJob{Scenario: n, Bound: bound, Budget: budget}
+	}
+	total, completed := 0, 0
+	perScenario := map[string]any{}
+	oneOutcome := 0
+	pool.Map("sched", jobs, time.Duration(budget+180)*time.Second, func(o JobOutcome) {
+		name := names[o.Index]
+		if o.Err != "" {
+			if o.Timeout {
+				rep.AddViolation(Violation{Prop: "C20", Op: name, Pre: "sched", Field: "hang", Detail: "exploration hung natively (an uninstrumented blocking call never returned)"}, SchedReplay{Kind: "sched", Scenario: name})
+				rep.Exhaustive = false
+				rep.Notes = append(rep.Notes, name+": timed out")
+				return
+			}
+			rep.Internal = append(rep.Internal, fmt.Sprintf("sched %s: %s", name, o.Err))
+			return
+		}
+		var res SchedJobResult
+		if err := json.Unmarshal(o.Data, &res); err != nil {
+			rep.Internal = append(rep.Internal, err.Error())
+			return
+		}
+		if res.Err != "" {
+			rep.Internal = append(rep.Internal, fmt.Sprintf("sched %s: %s", name, res.Err))
+			return
+		}
+		total += res.Executions
+		rep.Executions += res.Executions
+		rep.Transitions += res.Executions
+		rep.States += len(res.Outcomes)
+		if res.Capped {
+			rep.Exhaustive = false
+			rep.Notes = append(rep.Notes, fmt.Sprintf("%s: capped by the internal deadline after %d executions; bound %d not completed", name, res.Executions, bound))
+		} else {
+			completed++
+		}
+		if len(res.Outcomes) == 1 && res.Executions > 10 {
+			oneOutcome++
+		}
+		perScenario[name] = map[string]any{"executions": res.Executions, "max_points": res.MaxPoints, "distinct_outcomes": len(res.Outcomes), "completed": !res.Capped, "sequential_reference_orders": res.SeqRefs}
+		for k := range res.Outcomes {
+			rep.Outcome(name, fmt.Sprintf("%x", hashString(k)))
+		}
+		for _, w := range res.Witnesses {
+			rep.AddViolation(w.Violation, SchedReplay{"sched", name, w.Choices, w.Trace, w.Ops})
+		}
+		if res.Sample != nil {
+			rep.AddSample(map[string]any{"scenario": name, "choices": res.Sample.Choices, "deviations": res.Sample.Trace, "ops": res.Sample.Ops})
+		}
+	})
+	prev, _ := rep.Extra["sched"].(map[string]any)
+	if prev == nil {
+		prev = map[string]any{"scenarios": map[string]any{}}
+	}
+	sc := prev["scenarios"].(map[string]any)
+	for k, v := range perScenario {
+		sc[k] = v
+	}
+	prev["deviation_bound"] = bound
+	prev["scenarios_run"] = len(sc)
+	prev["scenarios_with_one_outcome"] = oneOutcome
+	rep.Extra["sched"] = prev
+}
+
+// ReplaySched re-executes a recorded schedule three times and reports whether the violation recurs.
+func ReplaySched(w Witness) int {
+	var rp SchedReplay
+	_ = json.Unmarshal(w.Replay, &rp)
+	sc := scenarios[rp.Scenario]
+	if sc == nil {
+		fmt.Println("unknown scenario", rp.Scenario)
+		return 2
+	}
+	var refs []seqOutcome
+	if sc.Lin {
+		var err error
+		if refs, err = sequentialOutcomes(sc); err != nil {
+			fmt.Println(err)
+			return 2
+		}
+	}
+	recurs := 0
+	for i := 0; i < 3; i++ {
+		x := runScenario(sc, rp.Choices, nil)
+		if x.Diverged != "" {
+			fmt.Println("replay diverged:", x.Diverged)
+			return 2
+		}
+		viols := x.Violations
+		if x.Abnormal != "" {
+			viols = append(viols, Violation{Prop: "C20", Op: sc.Name, Pre: "sched", Field: abnormalKind(x.Abnormal), Detail: x.Abnormal})
+		}
+		if sc.Lin && x.Abnormal == "" && !linearizable(x, refs) {
+			for _, p := range sc.Prop {
+				viols = append(viols, Violation{Prop: p, Op: sc.Name, Pre: "sched", Field: "not-linearizable", Detail: x.Key})
+			}
+		}
+		if i == 0 {
+			fmt.Printf("scenario %s, schedule %v\n", rp.Scenario, rp.Choices)
+			for _, t := range traceOf(x.Points) {
+				fmt.Println("  ", t)
+			}
+			for _, o := range abstractOps(x.Ops) {
+				fmt.Println("  ", o)
+			}
+			fmt.Println("   final:", x.Final)
+		}
+		for _, v := range viols {
+			if i == 0 {
+				fmt.Printf("  [%s] %s\n", v.Sig(), v.Detail)
+			}
+			if v.Sig() == w.Sig {
+				recurs++
+			}
+		}
+	}
+	if recurs == 3 {
+		fmt.Printf("VIOLATION property=%s reproduced 3/3\n", w.Prop)
+		return 1
+	}
+	fmt.Printf("violation %s reproduced %d/3\n", w.Sig, recurs)
+	if recurs == 0 {
+		return 0
+	}
+	return 2
+}
